@@ -179,6 +179,10 @@ func (c *ccComp) Gen(r *rand.Rand, tier string) []string {
 	if r.Intn(12) == 0 {
 		seq = append(seq, fmt.Sprintf("stress %d %d %d nohd", 1+r.Intn(1<<20), 2+r.Intn(7), 6+r.Intn(10)))
 	}
+	if r.Intn(10) == 0 {
+		// a literal-path Query vs a Delete of that leaf / an Add over an existing leaf vs a conditional delete (cc_qvd.go)
+		seq = append(seq, fmt.Sprintf("%s %d %d", []string{"qvd", "avd"}[r.Intn(2)], 1+r.Intn(1<<20), 200+r.Intn(400)))
+	}
 	seq = append(seq, "walks")
 	return seq
 }
@@ -310,6 +314,16 @@ func (c *ccComp) runSeq(args []string) string {
 		return c.windowDelete(decPath(args[1]), vA, decPath(args[3]))
 	case "cdel":
 		return ccCondDelete()
+	case "qvd", "avd":
+		if len(args) != 3 {
+			return "bad-op"
+		}
+		seed, _ := strconv.ParseInt(args[1], 10, 64)
+		rounds, _ := strconv.Atoi(args[2])
+		if args[0] == "qvd" {
+			return ccQueryVsDelete(seed, rounds) // cc_qvd.go
+		}
+		return ccAddVsCondDelete(seed, rounds)
 	case "stress":
 		seed, _ := strconv.ParseInt(args[1], 10, 64)
 		g, _ := strconv.Atoi(args[2])
